@@ -10,6 +10,13 @@ def main():
     if a.replay:
         doc = json.load(open(a.replay)); print(json.dumps(doc, indent=1)[:4000])
         sys.exit(0)
-    mod = importlib.import_module(f"props.{pid.lower()}")
-    sys.exit(run.run_property(pid, mod.build, tier=a.tier))
+    try:
+        mod = importlib.import_module(f"props.{pid.lower()}")
+        code = run.run_property(pid, mod.build, tier=a.tier)
+    except SystemExit: raise
+    except BaseException:
+        import traceback; traceback.print_exc()
+        print(f"CHECKER-FAILURE property={pid} (exit 3; this is not a verdict about the code)")
+        code = 3
+    sys.exit(code)
 main()
